@@ -6,6 +6,7 @@ func init() {
 		Technique:   "whole-program map-iteration-order taint analysis on SSA (sources: map ranges, maps.Keys/Values, iteration wrappers; sanitiser: sorts; sinks: hash/builder/writer output, float accumulation, last-writer stores) plus goroutine write-discipline analysis",
 		Explanation: "Decides that no hash-map iteration order can reach an order-sensitive effect in first-party code, and that the only concurrent region is schedule-independent and structurally race-free.",
 		Decided: []string{
+			"MO early exit: no loop over a map stops after acting on (or returning) the current element, except to report an error",
 			"MO: every map range / maps.Keys / maps.Values / callback-iteration region has only commutative effects; slices built in map order are sorted before any order-sensitive consumer (grouping-key hash, float accumulation, rendered output)",
 			"PV-GO: goroutines write only their own slot; parent reads after Wait",
 		},
